@@ -2660,6 +2660,8 @@ def fixup_dilation_gt2(op: Operation, arch, nng) -> Operation:
             # update the weight tensor with the new dilated kernel
             op.weights.shape = new_kernel_shape
             op.weights.values = new_kernel_values
+            # other operators may use a copy of the undilated kernel with the same value_id
+            op.weights.value_id = uuid.uuid4()
 
             # enable(=2) / disable(=1) hardware dilation
             op.attrs["dilation"] = (1, hw_dilation_h, hw_dilation_w, 1)  # nhwc format
